@@ -73,7 +73,7 @@ Qed.
 
 Definition enc_entry (v2 : bool) (e : bytes * finfo) : bytes :=
   let (nm, fi) := e in
-  (if v2 then enc_dirent_v2 (eff_size fi) (fi_mtime fi) masked_time masked_time (zlen nm) (fi_dir fi)
+  (if v2 then enc_dirent_v2 (eff_size fi) (fi_mtime fi) masked_ctime masked_atime (zlen nm) (fi_dir fi)
    else enc_dirent (eff_size fi) (zlen nm) (fi_dir fi))
   ++ (if zlen nm mod 2 ^ 16 =? 0 then [] else nm).
 
@@ -191,7 +191,7 @@ Qed.
 Theorem stat_true c w k p :
   step c w k (RStatFile p) =
   match fs_stat (plen c) w (abs_path c (rooted_elems p)) with
-  | Ok fi => done w k (enc_stat (eff_size fi) (fi_mtime fi) masked_time masked_time (fi_dir fi))
+  | Ok fi => done w k (enc_stat (eff_size fi) (fi_mtime fi) masked_ctime masked_atime (fi_dir fi))
   | Err _ => done w k (enc_stat (-1) 0 0 0 false)
   end.
 Proof. cbn [step]. destruct (fs_stat (plen c) w (abs_path c (rooted_elems p))); reflexivity. Qed.
